@@ -369,7 +369,7 @@ def gen_response(rng, lax=True):
         eol = b"\n"
     head = version + b" " + (b"%d" % code) + (b" " + reason if reason or rng.random() < 0.5 else b"") + eol
     for k, v in hs:
-        head += k + b": " + v + eol
+        head += k + b": " + v + (b"\r" * rng.randint(1, 4) if lax and rng.random() < 0.08 else b"") + eol
         if lax and rng.random() < 0.1:
             head += b" folded" + eol
     head += eol
